@@ -169,6 +169,12 @@ func c19Gen(t *rapid.T) c19Case {
 		}
 	}
 	c.Existing = rapid.IntRange(0, 3).Draw(t, "existing")
+	switch rapid.IntRange(0, 99).Draw(t, "existing_many") {
+	case 7, 8, 9, 10:
+		c.Existing = rapid.SampledFrom([]int{8, 9, 17, 40}).Draw(t, "existing_leafs") // the import continues a table of several leaves
+	case 50:
+		c.Existing = rapid.SampledFrom([]int{1160, 1170}).Draw(t, "existing_deep") // ... a table that gets its third level during the import
+	}
 	// which mapped columns read each source index
 	readers := map[int][]int{}
 	for mi, s := range c.SrcCols {
